@@ -757,6 +757,30 @@ def rule_round5(repo, rep):
         raise AnalysisError("intersects: coordinate fast path not found")
     require_conjuncts(rep, "C04-g", "ethosu/vela/register_command_stream_util.py:intersects", fast[0].test, ["ifm.shape == prev_ofm.shape", "ifm.tiles == prev_ofm.tiles"],
                       "coordinates are compared instead of addresses", "equal coordinates of two feature maps with different tile geometry are different bytes: a consumer job that reads what the producer's last blocks write gets BLOCKDEP 3")
+    # the same for every other field that the address of a coordinate depends on: the fields are read off the functions of the general
+    # (address comparing) path. `region` is left out: treating two regions as one only adds conflicts
+    fields = set()
+    for fname in ("get_strides", "get_address", "get_address_ranges_for_area", "get_h_ranges"):
+        f_ = ut.func(fname)
+        p0 = f_.args.args[0].arg
+        for a_ in ast.walk(f_):
+            if isinstance(a_, ast.Attribute) and isinstance(a_.value, ast.Name) and a_.value.id == p0:
+                fields.add(a_.attr)
+    fields.discard("region")
+    if not {"shape", "tiles", "data_type", "layout", "strides"} <= fields:
+        raise AnalysisError(f"address functions read {sorted(fields)} off the feature map: expected at least shape, tiles, data_type, layout, strides")
+    from ..exprnorm import conjuncts as _cj
+
+    have = set()
+    for c_ in _cj(fast[0].test):
+        if isinstance(c_, ast.Compare) and len(c_.ops) == 1 and isinstance(c_.ops[0], ast.Eq):
+            l_, r_ = c_.left, c_.comparators[0]
+            if isinstance(l_, ast.Attribute) and isinstance(r_, ast.Attribute) and l_.attr == r_.attr and {str(norm(l_.value)), str(norm(r_.value))} == {"ifm", "prev_ofm"}:
+                have.add(l_.attr)
+    missing = sorted(fields - have)
+    rep.check(not missing, "C04-g", "ethosu/vela/register_command_stream_util.py:intersects", f"the coordinate fast path requires equality of every field that addresses depend on ({', '.join(sorted(fields))})",
+              f"not compared: {missing}: equal coordinates of the same buffer seen with another element size, layout or row pitch are different bytes (demonstrated: int8 8x8x24 producer, NHCWB16 consumer of the "
+              "same buffer: BLOCKDEP 1 although job 0 reads a byte of the producer's last block)")
     gen = repo.mod("register_command_stream_generator")
     gd = gen.func("generate_dma_op")
     ln = [c_ for c_ in ast.walk(gd) if isinstance(c_, ast.Call) and c_.args and str(norm(c_.args[0])) == "cmd1.NPU_SET_DMA0_LEN"]
